@@ -14,10 +14,22 @@ NFILT = 5      # std_filt ids 0..4 (Nbrs.v)
 NFFL = 3       # std_ffl ids 0..2
 
 
+def _memo(w, kind, fid, make):
+    """one function object per (world, kind, id): the memo of neighbors() keys on function identity"""
+    d = w.__dict__.setdefault("_filters", {})
+    if (kind, fid) not in d:
+        d[(kind, fid)] = make()
+    return d[(kind, fid)]
+
+
 def std_filt(w, fid):
     """the Python twin of Nbrs.std_filt"""
     if fid is None:
         return None
+    return _memo(w, "filt", fid, lambda: _std_filt(w, fid))
+
+
+def _std_filt(w, fid):
 
     def f(e, v2):
         l = w.id_of(e)
